@@ -157,6 +157,8 @@ class ModelClient(Actor):
     def version(self, version=proto.PROTOCOL_VERSION):
         m = self.ask(proto.msg_version(self.domain, self.new_cmc(), version))
         p = self.payload(m)
+        if p and len(p) >= 9 and p[:4] == b"VACK" and version == proto.PROTOCOL_VERSION:
+            self.v_dgram = self.dgrams[-1]        # (kept: a relay may deliver it again much later)
         if p and len(p) >= 9 and p[:4] == b"VACK":
             self.challenge = struct.unpack(">I", p[4:8])[0]
             self.userid = p[8]
